@@ -136,8 +136,22 @@ def run_schedule(tmpl, opa, opb, plan, shared=True):
             r = sc.results.get(w)
             res[w] = r[1] if r and r[0] == "ok" else ("Error:" + type(r[1]).__name__ if r else "Error:stuck")
         final, opens, fsck, clean = read_final(path, tmpl)
+        # window: was some writer overtaken (the other one executed a mutating gate) while it was
+        # still in its unprotected check phase - i.e. after its first gate and before it holds
+        # the lock that serialises writers (tree: LockIndex taken; bare: LockRef taken)?
+        MUT = ("LockIndex", "WriteFile", "Remove", "AddObj", "LockRef", "MoveRef", "WriteIndex")
+        lockgate = "LockIndex" if tmpl.kind == "tree" else "LockRef"
+        phase = "none"
+        for w, o in (("A", "B"), ("B", "A")):
+            idx = [i for i, (x, g) in enumerate(sc.trace) if x == w]
+            if not idx:
+                continue
+            lk = next((i for i in idx if sc.trace[i][1] == lockgate), idx[-1] + 1)
+            if any(x == o and g in MUT for (x, g) in sc.trace[idx[0]:lk]):
+                phase = "check"
         return {"kind": tmpl.kind, "shared": shared, "init": tmpl.init,
                 "ops": {"A": opa, "B": opb}, "res": res, "final": final,
+                "err": {w: res[w].startswith("Error:") for w in res}, "phase": phase,
                 "opens": opens, "fsck": fsck, "clean": clean, "stuck": sc.stuck,
                 "sched": [[w, g] for (w, g) in sc.trace],
                 "plan": [[w, n if n is not None else -1] for (w, n) in plan]}
